@@ -61,6 +61,11 @@ Tails_def      == <<Chr(a), Chr(b), Empty, Op("z")>>
 \* whether it may be made atomic / greedy)
 NLItems_def    == <<Sh("s"), Sh("W"), Sh("D"), Cls(<< <<a, a>>, <<b, b>> >>, TRUE), Chr(10), Cls(<< <<10, 10>>, <<a, a>> >>, FALSE)>>
 NLLoops_def    == Prod2(Rep, NLItems_def, Quants_def) \o <<>>
+\* alternation branches that are concatenations beginning with a loop (the prefix-factoring rewrites compare the branches' leading
+\* loops: same operand, equal or different bounds)
+LoopHeads_def  == Prod2(Rep, <<Chr(a), Cls(<< <<a, a>>, <<b, b>> >>, FALSE), Dot>>,
+                        << <<2, 2, FALSE>>, <<1, 2, FALSE>>, <<0, 2, FALSE>>, <<1, -1, FALSE>>, <<0, 1, FALSE>>, <<1, 2, TRUE>> >>) \o <<>>
+Branches_def   == Prod2(Cat2, LoopHeads_def, <<Chr(a), Chr(b)>>) \o <<>>
 EndAnchors_def == <<Op("dollar"), Op("Z"), Op("z"), OptG(<<"m">>, <<>>, Op("dollar")), Op("b"), Op("B"), Cat2(Op("dollar"), Chr(10))>>
 
 \* A family is the product of two or three small factor sequences; its i-th tree is computed by index
@@ -70,14 +75,14 @@ Ix3(i, S1, S2, S3, which) == IF which = 1 THEN S1[((i - 1) \div (Len(S2) * Len(S
                              ELSE IF which = 2 THEN S2[(((i - 1) \div Len(S3)) % Len(S2)) + 1]
                              ELSE S3[((i - 1) % Len(S3)) + 1]
 
-FamNames == <<"seq2", "seq3", "alt2", "altseq", "seqalt", "grpq", "grpq2", "ncgq", "ref", "refq", "named", "look", "look2", "lookg", "atom", "anchor", "anchor2", "cond", "condx", "nested", "opti", "optm", "opts", "body3", "body3g", "nlend", "atomseq">>
-FamSizes_def == <<Len(I1_def) * Len(I1_def), Len(I1_def) * Len(I1_def) * Len(Leaves_def), Len(I1_def) * Len(I1_def), Len(I1_def) * Len(I1_def) * Len(Leaves_def), Len(I1_def) * Len(I1_def) * Len(Leaves_def), Len(QBodies_def) * Len(Quants_def) * Len(LeavesE_def), Len(Bodies_def) * Len(Quants_def) * Len(I1_def), Len(NcgBodies_def) * Len(Quants_def) * Len(I1_def), Len(I1_def) * Len(ELeaves_def) * Len(RefTails_def), Len(I1_def) * Len(Quants_def) * Len(Leaves_def), Len(NamedHeads_def) * Len(Leaves_def) * Len(NamedTails_def), Len(Looks_def) * Len(I1_def) * Len(I1_def), Len(Looks_def) * Len(I1_def) * Len(I1_def), Len(Looks_def) * Len(QBodies_def) * Len(LeavesE_def), Len(AtomBodies_def) * Len(I1_def), Len(Anchors_def) * Len(I1_def) * Len(AnchorsE_def), Len(I1_def) * Len(Anchors_def) * Len(LeavesDS_def), Len(Leaves_def) * Len(I1_def) * Len(LeavesE_def), Len(LookLeaves_def) * Len(I1_def) * Len(LeavesE_def), Len(L2Leaves_def) * Len(Quants_def) * Len(Leaves_def), Len(I1_def) * Len(I1_def) * Len(Leaves_def), Len(Anchors_def) * Len(I1_def) * Len(Anchors_def), Len(I1_def) * Len(DotReps_def) * Len(I1_def), Len(Body3_def) * Len(Quants_def) * Len(Tails_def), Len(Body3_def) * Len(Quants_def) * Len(Tails_def), Len(ELeaves_def) * Len(NLLoops_def) * Len(EndAnchors_def), Len(QLeaves_def) * Len(Leaves_def) * Len(LeavesE_def)>>
+FamNames == <<"seq2", "seq3", "alt2", "altseq", "seqalt", "grpq", "grpq2", "ncgq", "ref", "refq", "named", "look", "look2", "lookg", "atom", "anchor", "anchor2", "cond", "condx", "nested", "opti", "optm", "opts", "body3", "body3g", "nlend", "atomseq", "altcat">>
+FamSizes_def == <<Len(I1_def) * Len(I1_def), Len(I1_def) * Len(I1_def) * Len(Leaves_def), Len(I1_def) * Len(I1_def), Len(I1_def) * Len(I1_def) * Len(Leaves_def), Len(I1_def) * Len(I1_def) * Len(Leaves_def), Len(QBodies_def) * Len(Quants_def) * Len(LeavesE_def), Len(Bodies_def) * Len(Quants_def) * Len(I1_def), Len(NcgBodies_def) * Len(Quants_def) * Len(I1_def), Len(I1_def) * Len(ELeaves_def) * Len(RefTails_def), Len(I1_def) * Len(Quants_def) * Len(Leaves_def), Len(NamedHeads_def) * Len(Leaves_def) * Len(NamedTails_def), Len(Looks_def) * Len(I1_def) * Len(I1_def), Len(Looks_def) * Len(I1_def) * Len(I1_def), Len(Looks_def) * Len(QBodies_def) * Len(LeavesE_def), Len(AtomBodies_def) * Len(I1_def), Len(Anchors_def) * Len(I1_def) * Len(AnchorsE_def), Len(I1_def) * Len(Anchors_def) * Len(LeavesDS_def), Len(Leaves_def) * Len(I1_def) * Len(LeavesE_def), Len(LookLeaves_def) * Len(I1_def) * Len(LeavesE_def), Len(L2Leaves_def) * Len(Quants_def) * Len(Leaves_def), Len(I1_def) * Len(I1_def) * Len(Leaves_def), Len(Anchors_def) * Len(I1_def) * Len(Anchors_def), Len(I1_def) * Len(DotReps_def) * Len(I1_def), Len(Body3_def) * Len(Quants_def) * Len(Tails_def), Len(Body3_def) * Len(Quants_def) * Len(Tails_def), Len(ELeaves_def) * Len(NLLoops_def) * Len(EndAnchors_def), Len(QLeaves_def) * Len(Leaves_def) * Len(LeavesE_def), Len(Branches_def) * Len(Branches_def) * 2>>
 
 NF == Len(FamNames)
 CumTab_def == [k \in 0..NF |-> LET RECURSIVE Cum(_) Cum(m) == IF m = 0 THEN 0 ELSE Cum(m - 1) + FamSizes_def[m] IN Cum(k)]
 Selected_def == {k \in 1..NF : FamNames[k] \in SeqToSet(Params.families)}
 
-K_def == [Inputs |-> Inputs_def, Leaves |-> Leaves_def, Quants |-> Quants_def, QLeaves |-> QLeaves_def, I1 |-> I1_def, L2 |-> L2_def, Anchors |-> Anchors_def, Looks |-> Looks_def, Bodies |-> Bodies_def, QBodies |-> QBodies_def, LeavesE |-> LeavesE_def, ELeaves |-> ELeaves_def, AnchorsE |-> AnchorsE_def, LeavesDS |-> LeavesDS_def, NcgBodies |-> NcgBodies_def, RefTails |-> RefTails_def, NamedHeads |-> NamedHeads_def, NamedTails |-> NamedTails_def, AtomBodies |-> AtomBodies_def, LookLeaves |-> LookLeaves_def, L2Leaves |-> L2Leaves_def, DotReps |-> DotReps_def, Body3 |-> Body3_def, Tails |-> Tails_def, NLLoops |-> NLLoops_def, EndAnchors |-> EndAnchors_def, FamSizes |-> FamSizes_def, CumTab |-> CumTab_def, Selected |-> Selected_def]
+K_def == [Inputs |-> Inputs_def, Leaves |-> Leaves_def, Quants |-> Quants_def, QLeaves |-> QLeaves_def, I1 |-> I1_def, L2 |-> L2_def, Anchors |-> Anchors_def, Looks |-> Looks_def, Bodies |-> Bodies_def, QBodies |-> QBodies_def, LeavesE |-> LeavesE_def, ELeaves |-> ELeaves_def, AnchorsE |-> AnchorsE_def, LeavesDS |-> LeavesDS_def, NcgBodies |-> NcgBodies_def, RefTails |-> RefTails_def, NamedHeads |-> NamedHeads_def, NamedTails |-> NamedTails_def, AtomBodies |-> AtomBodies_def, LookLeaves |-> LookLeaves_def, L2Leaves |-> L2Leaves_def, DotReps |-> DotReps_def, Body3 |-> Body3_def, Tails |-> Tails_def, NLLoops |-> NLLoops_def, EndAnchors |-> EndAnchors_def, Branches |-> Branches_def, FamSizes |-> FamSizes_def, CumTab |-> CumTab_def, Selected |-> Selected_def]
 ASSUME TLCSet(5, K_def)
 K == TLCGet(5)
 Inputs == K.Inputs
@@ -106,6 +111,8 @@ Body3 == K.Body3
 Tails == K.Tails
 NLLoops == K.NLLoops
 EndAnchors == K.EndAnchors
+Branches == K.Branches
+EmptyOrB == <<Empty, Chr(b)>>
 FamSizes == K.FamSizes
 CumTab == K.CumTab
 Selected == K.Selected
@@ -138,6 +145,7 @@ FamTree(k, i) ==
     [] k = 25 -> LET x1 == Ix3(i, Body3, Quants, Tails, 1)  x2 == Ix3(i, Body3, Quants, Tails, 2)  x3 == Ix3(i, Body3, Quants, Tails, 3) IN Cat2(Rep(Grp(x1), x2), x3)
     [] k = 26 -> LET x1 == Ix3(i, ELeaves, NLLoops, EndAnchors, 1)  x2 == Ix3(i, ELeaves, NLLoops, EndAnchors, 2)  x3 == Ix3(i, ELeaves, NLLoops, EndAnchors, 3) IN Cat3(x1, x2, x3)
     [] k = 27 -> LET x1 == Ix3(i, QLeaves, Leaves, LeavesE, 1)  x2 == Ix3(i, QLeaves, Leaves, LeavesE, 2)  x3 == Ix3(i, QLeaves, Leaves, LeavesE, 3) IN Cat2(Un("atom", Cat2(x1, x2)), x3)
+    [] k = 28 -> LET x1 == Ix3(i, Branches, Branches, EmptyOrB, 1)  x2 == Ix3(i, Branches, Branches, EmptyOrB, 2)  x3 == Ix3(i, Branches, Branches, EmptyOrB, 3) IN Cat2(Alt2(x1, x2), x3)
 
 NFam == CumTab[NF]
 FamIdx(pid) == CHOOSE k \in 1..NF : CumTab[k - 1] < pid /\ pid <= CumTab[k]
